@@ -27,7 +27,18 @@ from common import Evidence, Verdicts, run_tlc, stage_spec, MachineryError
 
 PROP = "C16"
 CLIENT = "c1"
-KEYS = ["a", "b", "d/e/f", "zz", "a/sub"]
+KEYS = ["a", "b", "d/e/f", "zz", "a/sub", "kc", "kd"]
+# two keys that differ only in Unicode composition are different keys; the model (and TLC) see the ASCII aliases
+REAL = {"kc": "caf\u00e9", "kd": "cafe\u0301"}
+ALIAS = {v: k_ for k_, v in REAL.items()}
+
+
+def real(f):
+    return REAL.get(f, f)
+
+
+def alias(name):
+    return ALIAS.get(name, name)
 VALUE_SRC = {1: "42", 2: '"hello world"', 3: '[1 2 [3 "x"] "yy" 4.5]', 4: ':{[1 2] ["k" "v"]}', 5: "2.5", 6: ":sym", 7: '[0cx "s" :sym 1.5 [] ""]',
              8: '""', 9: "[]"}
 
@@ -105,7 +116,7 @@ def repr_value(v):
 
 
 MENU = ([{"k": "upd", "f": "a", "v": v} for v in (1, 2, 3)] + [{"k": "upd", "f": "b", "v": v} for v in (2, 3)] +
-        [{"k": "upd", "f": "d/e/f", "v": v} for v in (1, 3)] + [{"k": "get", "f": f, "v": 0} for f in KEYS] +
+        [{"k": "upd", "f": "d/e/f", "v": v} for v in (1, 3)] + [{"k": "get", "f": f, "v": 0} for f in KEYS[:5]] +
         [{"k": "reo", "f": "a", "v": 0}, {"k": "unl", "f": "a", "v": 0}])
 
 
@@ -162,9 +173,9 @@ class KvsDriver:
         c = self.store.cache
         nbytes = {f: -1 for f in KEYS}
         for f, info in c.file_futures.items():
-            nbytes[f] = int(info[1])
+            nbytes[alias(f)] = int(info[1])
         return {"mem": int(c.current_memory_usage), "bytes": nbytes,
-                "heapfiles": sorted({fn for _, fn in c.file_access_times}), "maxmem": int(c.max_memory)}
+                "heapfiles": sorted({alias(fn) for _, fn in c.file_access_times}), "maxmem": int(c.max_memory)}
 
     def run(self, prog):
         hist, snaps = [], []
@@ -174,10 +185,10 @@ class KvsDriver:
             evc += 2
             try:
                 if o["k"] == "upd":
-                    self.k(f'kvs,"{o["f"]}",,v{o["v"]}')
+                    self.k(f'kvs,"{real(o["f"])}",,v{o["v"]}')
                     h["out"] = "applied"
                 elif o["k"] == "get":
-                    r = self.k(f'kvs?"{o["f"]}"')
+                    r = self.k(f'kvs?"{real(o["f"])}"')
                     vid = self.val_id(r)
                     if vid is None:
                         h["out"] = "nofile"          # read as :undefined
@@ -187,7 +198,7 @@ class KvsDriver:
                     self.open()
                     h["out"] = "ok"
                 else:
-                    self.store.cache.unload_file(o["f"])
+                    self.store.cache.unload_file(real(o["f"]))
                     h["out"] = "ok"
             except MemoryError:
                 h["out"] = "memerr"
@@ -202,7 +213,7 @@ class KvsDriver:
         from klongpy.db.helpers import deserialize_obj
         out = {}
         for f in KEYS:
-            p = os.path.join(self.root, f)
+            p = os.path.join(self.root, real(f))
             if os.path.exists(p):
                 try:
                     with open(p, "rb") as fh:
@@ -363,6 +374,11 @@ def run(tier, seed):
     extra = [[{"k": "upd", "f": "a", "v": v}, {"k": "get", "f": "a", "v": 0}, {"k": "reo", "f": "a", "v": 0},
               {"k": "get", "f": "a", "v": 0}, {"k": "upd", "f": "d/e/f", "v": v}, {"k": "get", "f": "d/e/f", "v": 0}]
              for v in VALUE_SRC]
+    # keys differing only in Unicode composition: independent entries, also after eviction and reopening
+    extra += [[{"k": "upd", "f": "kc", "v": 1}, {"k": "upd", "f": "kd", "v": 2}, {"k": "get", "f": "kc", "v": 0}, {"k": "get", "f": "kd", "v": 0},
+               {"k": "reo", "f": "a", "v": 0}, {"k": "get", "f": "kd", "v": 0}, {"k": "get", "f": "kc", "v": 0}],
+              [{"k": "upd", "f": "kd", "v": 3}, {"k": "get", "f": "kc", "v": 0}, {"k": "upd", "f": "kc", "v": 2}, {"k": "unl", "f": "kd", "v": 0},
+               {"k": "get", "f": "kd", "v": 0}, {"k": "get", "f": "kc", "v": 0}]]
     mod, cfg = write_mc(d, sizes, limits, maxlen, extra)
     r = run_tlc(mod, cfg, workers=16 if thorough else 8, coverage=True, deadlock=True, timeout=7200)
     ev.add_tlc(f"FileCache.tla sequential: all op sequences of length <= {maxlen} over a menu of {len(MENU)} ops x limits {limits}",
@@ -384,7 +400,7 @@ def run(tier, seed):
             last = snaps[-1]
             cached = {}
             for f in KEYS:
-                info = drv.store.cache.file_futures.get(f)
+                info = drv.store.cache.file_futures.get(real(f))
                 if info is None:
                     cached[f] = -2
                 else:
